@@ -12,7 +12,7 @@
    cursor one column short.  The erase and sequence theorems therefore come as _partial
    (everything outside that trigger class, [erase_trigger] / [rv_edge_excl]) and _refuted. *)
 From Coq Require Import ZArith List Bool.
-From Tickit Require Import Csi CsiProofs VT TermPenDefs TermPenSpec XtermDefs XtermSpec XtermProofs XtermBytes TermApiDefs TermApiSpec TermApiProofs VTProofs FlushOnVT ScrollOnVT.
+From Tickit Require Import Csi CsiProofs VT TermPenDefs TermPenSpec XtermDefs XtermSpec XtermProofs XtermBytes TermApiDefs TermApiSpec TermApiProofs VTProofs VTUtf8 FlushOnVT ScrollOnVT.
 Import ListNotations.
 Local Open Scope Z_scope.
 
@@ -192,20 +192,27 @@ Print Assumptions C09_printn_zero_fixed.
    and the xterm driver (api_of_termop, api_run) onto the VT screen, and the result REFINES the abstract run
    cell by cell: every cell the flush wrote ([written w], w = what RBTermSim.paint records) holds on the VT
    screen the glyph of the abstract terminal's cell, rendered with that cell's pen ([wrel]: attributes =
-   [rend] of the pen, i.e. C10's rendition; for an erased blank: a space on the pen's visible background,
-   which is all ECH leaves); every other cell of the screen is untouched on both sides.
+   [rend] of the pen, i.e. C10's rendition [enc] of each of the ten attributes' defaulted reads; for a blank
+   erased by ECH: a space on the pen's visible background, which is all ECH leaves; under a reverse-video pen
+   the driver prints spaces instead and the blank carries the full rendition); every other cell of the screen
+   is untouched on both sides.
    Hypotheses (all explicit): the program's line styles are 1..3 (C04's op_ok); the screen is at least as large as
    the buffer; it has no margins, autowrap on, cursor on it (vt_ok, inside SimInv); the driver's cached pen is the
-   converted logical pen with reverse video off and the screen's rendition is the abstract terminal's pen
-   (SimInv; true of the state after start(), FlushOnVT.sim_start); and [termop_okb] of every emitted operation:
-   pens in range and every printed code point printable ASCII 0x20..0x7e -- the one width class the VT model
-   (one byte, one cell) and the library (cpw = 1) agree on; Latin-1, box-drawing glyphs (line cells), combining
-   and fullwidth characters are outside VT.v, which has no UTF-8 decoder.  The render buffer's pens are C19's
-   attribute maps (ten attributes, RGB secondaries); [termop_okb] bounds every set pen to fg / bg by palette
-   index -1..255 without RGB secondary, bold, underline style 0..3, and the other six attributes (italic,
-   reverse, strike, altfont, blink, sizepos) ABSENT.  With reverse video excluded that way, only the ECH
-   strategy of erasech is exercised and the recorded right-edge trigger class cannot arise (set-pen resets
-   reverse); flushes with reverse-video pens (xterm_payload's blanks instead of ECH) are outside this theorem. *)
+   converted logical pen and the screen's rendition is the abstract terminal's pen (SimInv; true of the state
+   after start(), C04_C09_start); and [termop_okb] of every emitted operation:
+   PENS: C19's attribute maps with all ten attributes, each value in the range the SGR model covers
+   (TermPenSpec.pen_in_rangeb: colour index -1..255, RGB secondary components 0..255 -- shown as direct colour
+   when the driver has the RGB capability [rgb8], by index otherwise --, underline style 0..3 with either
+   sub-parameter separator [colon], alternate font -1..9, sizepos 0/2/3: SIZEPOS_SMALL has no SGR; booleans incl.
+   REVERSE VIDEO).  TEXT: every printed code point of WIDTH 1 ([uprintable]: cpw c = 1, C07's width --
+   printable ASCII, Latin-1, box-drawing line glyphs, any other narrow character up to U+1FFFFF).  The text
+   goes to tickit_term_printn as its UTF-8 bytes (RBUtf8Bridge.enc = tickit_utf8_put's bytes) and the screen is
+   VT.v behind a UTF-8 print decoder ([vt_run_utf8], VTUtf8.v: runs of graphic bytes are decoded with C07's
+   specification decoder Utf8Spec.decode; VT.v then gives every code point one cell).  Outside: wide (cpw = 2)
+   and combining (cpw = 0) characters -- VT.v has no width model -- and invalid code points.
+   The recorded right-edge finding (reverse video, moveend = NO, ending at the right edge) is excluded
+   explicitly and vacuously: C04_C09_flush_not_rv_edge -- no operation of a flush is in the class [api_excl],
+   because the flush asks for moveend = YES / MAYBE only. *)
 Theorem C04_C09_flush_on_vt : forall L C prog s r colon rgb8 v0 t0 l0 pn0 T0,
   0 <= L -> 0 <= C -> Forall Tickit.RBFlushReach.op_ok prog ->
   Tickit.RBDefs.run (Tickit.RBDefs.rb_new L C) prog = Tickit.RBDefs.Ok (s, r) ->
@@ -218,27 +225,58 @@ Theorem C04_C09_flush_on_vt : forall L C prog s r colon rgb8 v0 t0 l0 pn0 T0,
     (Forall (fun o => termop_okb o = true) ops ->
      exists t1 toks l1 pn1,
        api_run t0 (map api_of_termop ops) = Some (t1, toks) /\
-       SimInv colon rgb8 (vt_run toks v0) t1 l1 pn1 /\
+       SimInv colon rgb8 (vt_run_utf8 toks v0) t1 l1 pn1 /\
        forall y x, 0 <= y < v_lines v0 -> 0 <= x < v_cols v0 ->
          if written w (y, x)
-         then wrel colon (v_grid (vt_run toks v0) y x) (Tickit.RBTermSim.tcellat T1 y x)
-         else v_grid (vt_run toks v0) y x = v_grid v0 y x /\
+         then wrel colon rgb8 (v_grid (vt_run_utf8 toks v0) y x) (Tickit.RBTermSim.tcellat T1 y x)
+         else v_grid (vt_run_utf8 toks v0) y x = v_grid v0 y x /\
               Tickit.RBTermSim.tcellat T1 y x = Tickit.RBTermSim.tcellat T0 y x).
 Proof. exact flush_on_vt. Qed.
 Print Assumptions C04_C09_flush_on_vt.
 
-(* the simulation behind it, for ANY operation list the gridless executor [paint] accepts *)
+(* the simulation behind it, for ANY operation list the gridless executor [paint] accepts; [dtoks] is what
+   the UTF-8 front end makes of the driver's tokens [toks] (rest = []: utf8_toks toks = dtoks), stated with a
+   continuation so that it composes with what is written next *)
 Theorem C04_C09_paint_on_vt : forall ops colon rgb8 v t l pn cur w cur' pen',
   SimInv colon rgb8 v t l pn -> cur_rel v cur ->
   Forall (fun o => termop_okb o = true) ops ->
   Tickit.RBTermSim.paint (v_lines v) (v_cols v) cur pn ops = Some (w, cur', pen') ->
-  exists t' toks l',
+  exists t' toks dtoks l',
     api_run t (map api_of_termop ops) = Some (t', toks) /\
-    SimInv colon rgb8 (vt_run toks v) t' l' pen' /\ cur_rel (vt_run toks v) cur' /\
-    v_lines (vt_run toks v) = v_lines v /\ v_cols (vt_run toks v) = v_cols v /\
-    cells_rel colon w v (vt_run toks v).
+    (forall rest, utf8_toks (toks ++ rest) = dtoks ++ utf8_toks rest) /\
+    SimInv colon rgb8 (vt_run dtoks v) t' l' pen' /\ cur_rel (vt_run dtoks v) cur' /\
+    v_lines (vt_run dtoks v) = v_lines v /\ v_cols (vt_run dtoks v) = v_cols v /\
+    cells_rel colon rgb8 w v (vt_run dtoks v).
 Proof. exact paint_on_vt. Qed.
 Print Assumptions C04_C09_paint_on_vt.
+
+(* the UTF-8 front end: the encoding of code points the decoder accepts is shown as those code points; tokens
+   without graphic bytes pass; on ASCII-only output (everything C09's other theorems are about) the encoding is
+   the identity *)
+Theorem C09_utf8_print : forall u rest, Forall cpok u ->
+  utf8_toks (chars (Tickit.RBUtf8Bridge.enc u) ++ rest) = chars u ++ utf8_toks rest.
+Proof. exact utf8_print. Qed.
+Print Assumptions C09_utf8_print.
+
+Theorem C09_utf8_nochar : forall ts rest, nocharb ts = true -> utf8_toks (ts ++ rest) = ts ++ utf8_toks rest.
+Proof. exact utf8_nochar. Qed.
+Print Assumptions C09_utf8_nochar.
+
+Theorem C09_utf8_ascii : forall u, Forall (fun c => 0 <= c < 0x80) u -> Tickit.RBUtf8Bridge.enc u = u.
+Proof. exact enc_ascii. Qed.
+Print Assumptions C09_utf8_ascii.
+
+(* the text class contains printable ASCII, and (by computation over the translated width tables) Latin-1
+   and the box-drawing glyphs the render buffer's line cells print *)
+Theorem C09_text_class : (forall c, printable c = true -> uprintable c = true) /\
+  forallb uprintable [0xA0; 0xE9; 0xFF; 0x2500; 0x2502; 0x250C; 0x253C; 0x256C; 0x2592] = true /\
+  forallb (fun c => negb (uprintable c)) [0x1F; 0x7F; 0x9F; 0x301; 0x4E2D; 0xFF21] = true.
+Proof. exact text_class. Qed.
+Print Assumptions C09_text_class.
+
+Theorem C04_C09_flush_not_rv_edge : forall t v o, api_excl t v (api_of_termop o) = false.
+Proof. exact flush_op_not_rv_edge. Qed.
+Print Assumptions C04_C09_flush_not_rv_edge.
 
 (* the hypothesis SimInv holds of a fresh driver on the screen start() leaves, with the empty pen *)
 Theorem C04_C09_start : forall lines cols d, 0 < lines -> 0 < cols ->
@@ -323,3 +361,17 @@ Example C09_win_scroll_nonvacuous :
   shifted_grid v (conv r) 1 (-1) 2 1 = blank_cell (v_sgr v) /\
   shifted_grid v (conv r) 1 (-1) 1 2 = v_grid v 2 1.
 Proof. exact win_scroll_example. Qed.
+
+(* non-vacuity of the pen class of C04_C09_flush_on_vt: reverse video, RGB secondary, curly underline *)
+Example C04_C09_pen_class_nonvacuous :
+  rbpen_okb rv_rgb_pen = true /\ a_reverse (rend true true rv_rgb_pen) = true /\
+  a_fg (rend true true rv_rgb_pen) = CRgb 10 20 30 /\ a_fg (rend true false rv_rgb_pen) = CIdx 3 /\
+  a_under (rend true true rv_rgb_pen) = 3 /\ a_under (rend false true rv_rgb_pen) = 1.
+Proof. exact rv_pen_example. Qed.
+
+(* non-vacuity of the UTF-8 front end *)
+Example C09_utf8_nonvacuous :
+  Tickit.RBUtf8Bridge.enc [0xE9; 0x2500] = [0xC3; 0xA9; 0xE2; 0x94; 0x80] /\
+  utf8_toks (csi_0 72 :: chars [0xC3; 0xA9; 0xE2; 0x94; 0x80] ++ [csi_0 75]) = csi_0 72 :: chars [0xE9; 0x2500] ++ [csi_0 75] /\
+  utf8_toks (chars [0x41; 0xA9]) = chars [0x41; 0xFFFD].
+Proof. exact utf8_example. Qed.
